@@ -673,7 +673,18 @@ func (c *Ctx2) session(s *Session) {
 		if ra[i] != rb[i] {
 			same := i < len(on) && (on[i].R != offr[i].R || on[i].O != offr[i].O)
 			if !same {
-				c.Fail("repl-differs-but-api-agrees", s.text(), fmt.Sprintf("input %d: on %s / off %s", i, ra[i], rb[i]))
+				// same result class and printed bytes, different text: only error messages are not part of the API
+				// observation. A stale hit of the known finding can let the evaluation run on to a DIFFERENT error
+				// (g() remembered, its callee h rebound with another arity: hit + later error vs arity error).
+				sig := "repl-differs-but-api-agrees"
+				if on[i].R == "E" && offr[i].R == "E" && s.rebinds(i) && !strings.HasPrefix(s.Tag, "regress:") {
+					sig = "stale-hit:redefined-callee"
+				}
+				c.Count("diff=" + sig)
+				c.seen[sig]++
+				if sig != "stale-hit:redefined-callee" || c.seen[sig] <= 40 {
+					c.Fail(sig, s.text(), fmt.Sprintf("input %d: on %s / off %s", i, ra[i], rb[i]))
+				}
 			}
 			break
 		}
@@ -903,7 +914,9 @@ func (g *gen) intBody(name string, params []string, closed bool) *Expr {
 		if len(params) > 1 {
 			rec = add(cn(self, sub(v(n), li(1)), v(params[1])), li(1))
 		}
-		core = iff(lt(v(n), li(1)), g.intAtom(params, closed), rec)
+		// recursion only for 1 <= n <= 6: callers may pass a global counter that keeps growing, and an uncached
+		// (impure) fib-shaped body on it is exponential for the implementation and worse for the model's frame list
+		core = iff(lt(v(n), li(1)), g.intAtom(params, closed), iff(lt(li(6), v(n)), g.intAtom(params, closed), rec))
 	case k < 3 && len(params) > 0:
 		core = iff(lt(v(params[0]), li(1)), er("neg"), g.intExpr(params, self, 1, closed))
 	case k < 4 && len(params) > 0:
